@@ -15,6 +15,10 @@ TRUSTED_BASE = [
     "Conn half, response direction: coq/Model/Legacy.v + ConnOps.v (reader combinators of read.go, response grammars, inline readers; shared with C11/C17) and coq/Model/ConnReaders.v "
     "(reader table, consumer-group subscription/assignment blobs) tied to the real readers (readFrom()/read()/readFetchResponseHeaderVx/readMapStringInt32 through /repo/verif_export_c04b.go, "
     "Conn.ApiVersions on a scripted peer) by comparing the decoded Go value field by field; harness-side reference encoder checked against Legacy.enc; ocaml/c04connr_driver.ml",
+    "pooling of encoder / decoder objects in protocol.Marshal / protocol.Unmarshal (sync.Pool; Reset between uses) is NOT modelled: in the model encode/decode are functions of their input "
+    "alone (that statelessness is what C04_roundtrip quantifies over), and the real code's history-independence is tied dynamically by the `pool` family of harness/cmd/c04conn: valid "
+    "Marshal->Unmarshal round trips of protocol/consumer Subscription/Assignment/TopicPartition and a harness-local type interleaved with failing decodes (truncated, version mismatch, garbage), "
+    "on one goroutine and on four; ReadRequest/ReadResponse/WriteRequest/WriteResponse allocate their decoder/encoder per call (no pool)",
 ]
 ASSUMPTIONS = [
     "record sets inside produce/fetch are delegated to C05 (arrays that would contain a RecordSet stay empty at this level)",
@@ -154,6 +158,29 @@ def conn_judge(cases, res, canon):
                 fail("property", f"the protocol package decodes / re-encodes the same response differently [{tag}]", c, verdict=x[:400])
             else:
                 bump("resp-" + x)
+        elif c["op"] == "pool":
+            # history-independence of the pooled encoder / decoder of protocol.Marshal / Unmarshal: the model's
+            # decoder is a function of its input alone, so every valid round trip must return the value whatever
+            # was decoded before
+            a = c["args"].split(" ")
+            steps, outs = a[1].split(","), g.split(",")
+            if len(steps) != len(outs):
+                fail("correspondence", "pool sequence: outcome count differs from step count", c)
+                continue
+            prev_failed = False
+            for st, o in zip(steps, outs):
+                st, o = st.split("/")[-1], o.split("/", 1)[-1] if "/" in o.split(":")[0] else o
+                if st.startswith("v."):
+                    bump("pool:valid-after-failure" if prev_failed else "pool:valid")
+                    if o != "ok":
+                        fail("property", f"protocol.Unmarshal(protocol.Marshal(v)) did not return v after earlier decodes on the pooled decoder ({a[0]} goroutine mode, step {st}: {o[:80]})", c)
+                        bump("pool:BAD")
+                    prev_failed = False
+                else:
+                    bump("pool:failing")
+                    if o != "err":
+                        fail("correspondence", f"pool sequence: a decode meant to fail did not ({st}: {o[:60]})", c)
+                    prev_failed = True
         elif c["op"] == "neg":
             a = c["args"].split(" ")
             sup = [int(x, 16) for x in a[2].split(",")]
@@ -186,7 +213,7 @@ def conn_correspondence(ctx):
     n = conn_rounds(ctx)
     rmodel = L.ocaml_build("c04connr")
     cases = conn_gen(ctx.seed, n)
-    res = L.run_model(model, "\n".join(c["line"] for c in cases if c["op"] != "cresp") + "\n")
+    res = L.run_model(model, "\n".join(c["line"] for c in cases if c["op"] not in ("cresp", "pool")) + "\n")
     res.update(L.run_model(rmodel, "\n".join(c["line"] for c in cases if c["op"] == "cresp") + "\n"))
     # the generic schema model on the bytes the real Conn wrote
     lines = []
@@ -299,7 +326,8 @@ def correspondence(ctx):
                      "(13 response structs at every version incl. reflective metadata v1/v6, produce/list-offsets partition structs, fetch headers v2/v5/v10, ApiVersions through the Conn, the consumer-group "
                      "metadata and assignment blobs) wire values generated from the grammar (arrays null/0/1/2/3/4-6 at every level, maps with several and duplicate topics, null/empty/long strings and "
                      "bytes, boundary ints), encoded by a reference encoder (= Legacy.enc, checked), decoded by the real reader; the rendered Go value and remaining size must equal the model's, and "
-                     "the protocol package must re-encode the frame identically / decode the blobs to the same fields",
+                     "the protocol package must re-encode the frame identically / decode the blobs to the same fields. Pooled codec objects (op pool): sequences of protocol.Marshal->Unmarshal round trips "
+                     "interleaved with failing Unmarshal calls, single goroutine and 4 goroutines; every valid round trip must return the value",
                 samples=[c["line"][:240] + " | " + c["go"][:120] for c in cases[:2] + cases[len(cases)//2:len(cases)//2+2]]
                         + [c["line"][:240] + " | " + c["go"][:120] for c in cc["cases"][12:13] + cc["cases"][40:41]],
                 failures=failures, extra=dict(schemas=len({c["args"].split(" ")[0] for c in cases}), unknown_tag_frames=len(ut),
